@@ -93,6 +93,11 @@ def main(ctx):
         if v['child_saw'] != 17 or v['parent_saw'] != 23:
             ctx.violation('write not visible across processes (%s): %r' % (v['method'], v),
                           'observed:visibility:%s' % v['method'], replay=v)
+    fi = data['fork_isolation']
+    if not (fi['parent_zero_at_birth'] and fi['parent_intact'] and fi['child_intact']):
+        ctx.violation('objects allocated on either side of a fork share storage: %r' % fi,
+                      'observed:fork_isolation', replay=fi)
+    ctx.note('fork_isolation', fi)
     for b in data['types']['bad']:
         ctx.violation('type sweep: ' + b, 'datasweep:' + b.split('(')[0], replay=b)
     ctx.note('type_sweep_cases', data['types']['cases'])
